@@ -32,6 +32,7 @@ def run(tier):
             continue
         rep = replay(res)
         absorb_replay(chk, rep, "replay of TLC behaviour")
+    require_cases(chk, chk.distinct, kinds, OPS, what="C02 arithmetic")
     return chk.finish(rule="one case = (concrete type, operation, syntactic form) replayed bit-exactly; behaviours are "
                            "load;load;op programs enumerated by TLC over generic operand values (all presence patterns "
                            "of optional parts), expected results computed by the B-model over exact rationals",
